@@ -168,6 +168,10 @@ pub fn run(a: &Args) {
     // scenarios run a few at a time
     let subs: Vec<u64> = (0..a.n).map(|_| rng.next()).collect();
     for chunk in subs.chunks(8) {
+        if crate::l2::timeouts() >= crate::l2::ENOUGH_TIMEOUTS {
+            sink.count("stopped-early-after-timeouts");
+            break;
+        }
         let hs: Vec<_> = chunk.iter().map(|&s| std::thread::spawn(move || (s, scenario(s)))).collect();
         for h in hs {
             if let Ok((s, Some(t))) = h.join() {
